@@ -14,6 +14,7 @@ import (
 	"os/exec"
 	"path/filepath"
 	"regexp"
+	"runtime/pprof"
 	"sort"
 	"strconv"
 	"strings"
@@ -324,6 +325,7 @@ func cmdCheck(args []string) int {
 	noEvidence := fs.Bool("no-evidence", false, "do not write the evidence file")
 	verbose := fs.Bool("v", false, "verbose")
 	maxSec := fs.Float64("max-seconds", 0, "per-harness wall clock limit (0 = tier default)")
+	cpuprof := fs.String("cpuprofile", "", "write a CPU profile of the exploration")
 	fs.Parse(args)
 	if v := os.Getenv("VERIF_TIER"); v != "" && *tier == "" {
 		*tier = v
@@ -394,6 +396,11 @@ func cmdCheck(args []string) int {
 		eng.TimeoutMs = 300000
 	}
 
+	if *cpuprof != "" {
+		f, _ := os.Create(*cpuprof)
+		pprof.StartCPUProfile(f)
+		defer pprof.StopCPUProfile()
+	}
 	var hev []harnessEvidence
 	var cands []ssaexec.Violation
 	inconclusive := []string{}
